@@ -95,7 +95,7 @@ class PointLocal(FragmentTask):
 
 
 def api_tasks(tier):
-    out = [PointLocal(2, 0), PointLocal(2, 1), PointMatch(), PointRefusal(0, 1), PointRefusal(2, 0)]
+    out = [PointLocal(2, 0), PointLocal(2, 1), PointValue(2, 1), PointValue(2, 0), PointMatch(), PointRefusal(0, 1), PointRefusal(2, 0)]
     if tier == "thorough":
         out += [PointLocal(3, 0), PointLocal(3, 1), PointLocal(3, 2), PointLocal(1, 0)]
     return out
@@ -119,6 +119,68 @@ def tasks(tier):
 def canaries(tier):
     return api_canaries()
 
+
+
+class PointValue(PointLocal):
+    """The single-box branch down to its return, single field: for a point that is the centre of a cell of box b at least one
+    cell away from its faces, the value returned is the stored value of that cell.  scipy's map_coordinates by its contract (at
+    integer coordinates at least one cell inside the array it returns the element there; anything else is outside the contract)."""
+    last = staticmethod(lambda s: isinstance(s, ast.If) and "self.farg" in ast.unparse(s.test))
+
+    def __init__(self, nlevels, l):
+        super().__init__(nlevels, l)
+        self.name = f"LevelDataSelector.__call__.single-box-value[levels={nlevels},match={l}]"
+
+    def setup(self, ex):
+        r = super().setup(ex)
+        ctx = ex.ctx
+        from pyvc.exec import LIBS
+        DATA = z3.Function("STORED", I, I, I, R)
+        sh = [z3.Int(f"ext{d}") for d in range(3)]
+        c, b, ILO = r["c"], r["b"], r["ILO"]
+        for d in range(3):
+            loc = c[d] - ILO(self.l, b, d)
+            ctx.assume(z3.And(sh[d] >= 3, loc >= 1, loc <= sh[d] - 2))       # at least one cell away from the faces of its box
+
+        def level_view(ex_, args, kw):
+            lv = args[-1]
+            return SymSeq(z3.Int(f"nb{lv}"), lambda i: NDArray(list(sh), lambda ix: DATA(*[to_z3(x) for x in ix]), "f8"))
+        self.contracts = {SEL + "__getitem__": level_view}
+
+        def map_coordinates(ex_, args, kw):
+            from pyvc.ops import as_ndarray
+            arr, co = as_ndarray(args[0]), as_ndarray(args[1])
+            if arr.ndim != 3:
+                raise Unsupported("map_coordinates: rank")
+            pts = []
+            for d in range(3):
+                x = co.elem((d, 0))
+                xr = to_real(x)
+                k = ex_.ctx.fresh("coord")
+                # the contract only speaks about integer coordinates at least one cell inside the array
+                if not ex_.ctx.entails(z3.Exists([k], z3.And(to_real(k) == xr, k >= 1, k <= to_z3(arr.shape[d]) - 2))):
+                    raise Unsupported("map_coordinates outside its contract (non-integer coordinate, or next to the edge)")
+                kk = ex_.ctx.fresh("icoord")
+                ex_.ctx.add_pc(to_real(kk) == xr)
+                pts.append(kk)
+            return Vec([arr.elem(tuple(pts))], "array")
+        LIBS[("scipy.ndimage", "map_coordinates")] = map_coordinates
+        r["DATA"], r["sh"] = DATA, sh
+        return r
+
+    def post(self, ex, inp, out):
+        ctx = ex.ctx
+        ctx.oblige("raises-nothing", out.kind == "ret", "P", note=str(out.exc) if out.kind != "ret" else "")
+        if out.kind != "ret":
+            return
+        from pyvc.ops import as_ndarray
+        val = out.value.get("__return__", None) if isinstance(out.value, dict) else None
+        ctx.structure("post.the-branch-returns-a-value", val is not None)
+        if val is None:
+            return
+        got = as_ndarray(val).elem((0,))
+        c, b, ILO = inp["c"], inp["b"], inp["ILO"]
+        ctx.oblige("post.returns-the-stored-value-of-the-cell", to_z3(got) == inp["DATA"](*[c[d] - ILO(self.l, b, d) for d in range(3)]), "P")
 
 class PointMatch(FragmentTask):
     """The matching loop of __call__ and the choice of the finest matching level, on a two-level skeleton in which a fine box
